@@ -1,3 +1,14 @@
-/- C18 property theorems (not written yet) -/
+/-
+C18 — context-local data never leaks between concurrent contexts (partial).
+Property theorems only (helper lemmas live in Lemmas/Local.lean).
+-/
+import WzVerif.Model.Local
 namespace Wz.Props.C18
+open Wz Wz.Local
+
+/-- Every method body translated from the current `local.py` obeys the copy-on-write discipline:
+each in-place mutation (`values[name] = …`, `del values[name]`, `stack.append(…)`) targets an object
+allocated earlier in the same call. This is the obligation a dropped `.copy()` breaks. -/
+theorem generated_programs_cow : ∀ p ∈ Gen.LocalOps.programs, CopyBeforeWrite p.2 := by decide
+
 end Wz.Props.C18
